@@ -46,12 +46,34 @@ impl Case {
     }
 }
 
-fn moment_kinds(id: u8) -> Vec<usize> {
+/// moment kinds of radial `i`: ids 0..=3 are constant sets, 4 and 5 vary from radial to radial
+/// (state carried from one message to the next would show), 6 = all seven with varying gate counts
+fn moment_kinds(id: u8, i: usize) -> Vec<usize> {
     match id {
         0 => vec![],
         1 => vec![3],
         2 => vec![3, 4, 5],
-        _ => vec![3, 4, 5, 6, 7, 8, 9],
+        3 | 6 => vec![3, 4, 5, 6, 7, 8, 9],
+        4 => match i % 3 {
+            0 => vec![3, 4, 5, 6, 7, 8, 9],
+            1 => vec![3],
+            _ => vec![],
+        },
+        _ => {
+            if i % 2 == 0 {
+                vec![3, 4]
+            } else {
+                vec![3, 5, 7]
+            }
+        }
+    }
+}
+
+fn gates_for(c: &Case, i: usize) -> u16 {
+    if c.moments == 6 {
+        [c.gates, 1, c.gates / 2 + 1, c.gates.saturating_add(1)][i % 4]
+    } else {
+        c.gates
     }
 }
 
@@ -72,7 +94,6 @@ const OFFSET: f32 = 66.0;
 
 /// Builds the volume bytes and the expected radial list / VCP number.
 fn build(c: &Case) -> (Vec<u8>, Vec<ExpRadial>, Option<u16>) {
-    let kinds = moment_kinds(c.moments);
     let mut msgs: Vec<Vec<u8>> = Vec::new();
     let mut exp = Vec::new();
     let mut first_vcp: Option<u16> = None;
@@ -108,9 +129,11 @@ fn build(c: &Case) -> (Vec<u8>, Vec<ExpRadial>, Option<u16>) {
             blocks.push(Block::elv(*elev));
             blocks.push(Block::rad(*elev));
             let mut em = vec![None; 7];
+            let kinds = moment_kinds(c.moments, i);
+            let gates = gates_for(c, i);
             for &k in &kinds {
                 let ws = if k == 7 { 16 } else { 8 };
-                let raws: Vec<u32> = (0..c.gates as usize).map(|g| raw_for(i, k, g, ws)).collect();
+                let raws: Vec<u32> = (0..gates as usize).map(|g| raw_for(i, k, g, ws)).collect();
                 let mut data = Vec::new();
                 for r in &raws {
                     if ws == 16 {
@@ -119,7 +142,7 @@ fn build(c: &Case) -> (Vec<u8>, Vec<ExpRadial>, Option<u16>) {
                         data.push(*r as u8);
                     }
                 }
-                blocks.push(Block::moment(KIND_NAMES[k], c.gates, ws as u8, SCALE, OFFSET, &data));
+                blocks.push(Block::moment(KIND_NAMES[k], gates, ws as u8, SCALE, OFFSET, &data));
                 em[k - 3] = Some(raws);
             }
             let mut mh = MsgHeader::simple(31, 19000, 1000 + i as u32);
@@ -142,7 +165,11 @@ fn build(c: &Case) -> (Vec<u8>, Vec<ExpRadial>, Option<u16>) {
     for (ri, s) in starts.iter().enumerate() {
         let e = starts.get(ri + 1).copied().unwrap_or(msgs.len());
         let payload: Vec<u8> = msgs[*s..e].concat();
-        records.push(record_bz(&payload, c.level, ri % 2 == 1));
+        records.push(record_bz(&payload, c.level.max(1), ri % 2 == 1));
+        if c.level == 0 {
+            // level 0 marks "interleave empty records": a record whose payload is empty
+            records.push(record_bz(&[], 9, ri % 2 == 0));
+        }
     }
     if msgs.is_empty() {
         records.clear();
@@ -280,8 +307,8 @@ pub fn cases(thorough: bool) -> Vec<Case> {
     let mut out = Vec::new();
     let base = Case { runs: vec![], splits: vec![], meta: None, moments: 1, gates: 4, vol: 0, level: 9 };
     // A. elevation words x run-length patterns x every record partition
-    let maxlen = if thorough { 5 } else { 4 };
-    let lens_patterns: Vec<Vec<u16>> = if thorough { vec![vec![1], vec![2], vec![1, 2, 3]] } else { vec![vec![1], vec![2, 1]] };
+    let maxlen = if thorough { 7 } else { 5 };
+    let lens_patterns: Vec<Vec<u16>> = if thorough { vec![vec![1], vec![2], vec![1, 2, 3], vec![3, 1]] } else { vec![vec![1], vec![2, 1]] };
     for len in 1..=maxlen {
         for w in words(3, len) {
             for lp in &lens_patterns {
@@ -289,7 +316,7 @@ pub fn cases(thorough: bool) -> Vec<Case> {
                 let m: usize = runs.iter().map(|r| r.1 as usize).sum();
                 if m <= 8 {
                     let nsplit = 1usize << (m - 1);
-                    let step = if thorough || nsplit <= 16 { 1 } else { 5 };
+                    let step = if thorough || nsplit <= 32 { 1 } else { 3 };
                     let mut mask = 0;
                     while mask < nsplit {
                         let splits: Vec<usize> = (1..m).filter(|b| mask & (1 << (b - 1)) != 0).collect();
@@ -348,6 +375,41 @@ pub fn cases(thorough: bool) -> Vec<Case> {
             }
         }
     }
+    // C2. per-radial variation (moment sets / gate counts change from one radial to the next),
+    // gate counts around 256, long runs, many records, empty records in between
+    for moments in [4u8, 5, 6] {
+        for gates in [3u16, 255, 256, 257, 1000] {
+            if !thorough && gates == 1000 && moments != 6 {
+                continue;
+            }
+            for runs in [vec![(1u8, 4u16), (2, 3), (1, 2)], vec![(3, 7)]] {
+                let m: usize = runs.iter().map(|r| r.1 as usize).sum();
+                for splits in [vec![], (1..m).collect::<Vec<_>>(), vec![3, 5]] {
+                    out.push(Case { runs: runs.clone(), splits, meta: Some((0, 2)), moments, gates, vol: 0, level: 9 });
+                }
+            }
+        }
+    }
+    for gates in [255u16, 256, 257, 258, 511, 512, 513, 1024] {
+        out.push(Case { runs: vec![(1, 2), (2, 1)], splits: vec![1], meta: None, moments: 3, gates, vol: 0, level: 9 });
+    }
+    for (n, per_record) in [(300u16, 1usize), (257, 256), (720, 100), (65u16, 64)] {
+        // long runs: more than 255/256 radials in one sweep, many single-message records
+        let runs = vec![(1u8, n), (2, 2), (1, n)];
+        let total = 2 * n as usize + 2;
+        out.push(Case { runs, splits: (1..total).filter(|k| k % per_record == 0).collect(), meta: Some((1, 0)), moments: 1, gates: 2, vol: 0, level: 9 });
+    }
+    for runs in [vec![(1u8, 2u16), (2, 2)], vec![(5, 1)], vec![(1, 3), (2, 3), (1, 3), (3, 3)]] {
+        let m: usize = runs.iter().map(|r| r.1 as usize).sum();
+        // level 0 = an empty record after every record
+        out.push(Case { runs: runs.clone(), splits: (1..m).collect(), meta: None, moments: 2, gates: 4, vol: 1, level: 0 });
+        out.push(Case { runs, splits: vec![], meta: Some((0, 0)), moments: 1, gates: 4, vol: 0, level: 0 });
+    }
+    // C3. one record whose decompressed size crosses 64 KiB, 1 MiB, 4 MiB, 8 MiB (thorough: 16, 32 MiB)
+    let big: Vec<u16> = if thorough { vec![5, 80, 300, 600, 1200, 2400] } else { vec![5, 80, 300, 600] };
+    for n in big {
+        out.push(Case { runs: vec![(1, n / 2), (2, n - n / 2)], splits: vec![], meta: None, moments: 3, gates: 1840, vol: 0, level: 1 });
+    }
     // D. realistic structured volumes: 720 radials per elevation, 120 radials per record
     let big = vec![(1u8, 720u16), (2, 720), (1, 720), (3, 360)];
     out.push(Case { runs: big.clone(), splits: (1..22).map(|k| k * 120).collect(), meta: Some((1, 0)), moments: 2, gates: if thorough { 460 } else { 40 }, vol: 4, level: 9 });
@@ -382,7 +444,7 @@ pub fn run(ctx: &'static Ctx) -> (&'static str, Value, Vec<&'static str>) {
         })
         .reduce(Stats::new, Stats::merge);
     let cov = stats.coverage(
-        "volumes built by the reference encoder: every elevation word over {1,2,3} up to length 4 (thorough 5) x run-length patterns x EVERY partition of the message stream into bzip2 records (streams <= 8 messages; 4 strategies above), special sequences (255, 0, SAILS 1,2,1,3, 1..=255 ascending), a status/VCP/type-15/type-18 frame inserted at every position, moment subsets {none, REF, REF+VEL+SW, all 7 with 16-bit PHI} x gates {0,1,4,1840} x 5 VOL placements, 2,520-radial realistic volume. Oracle = encoder's radial list (identity by unique timestamp, values via reference conversion). non-trivial = >=2 elevation runs and >=2 records",
+        "volumes built by the reference encoder: every elevation word over {1,2,3} up to length 5 (thorough 7) x run-length patterns x EVERY partition of the message stream into bzip2 records (streams <= 8 messages; 4 strategies above), special sequences (255, 0, SAILS 1,2,1,3, 1..=255 ascending), a status/VCP/type-15/type-18 frame inserted at every position, moment subsets {none, REF, REF+VEL+SW, all 7 with 16-bit PHI} x gates {0,1,4,1840} x 5 VOL placements, 2,520-radial realistic volume. Oracle = encoder's radial list (identity by unique timestamp, values via reference conversion). non-trivial = >=2 elevation runs and >=2 records",
         true,
         json!({"cases": cs.len()}),
     );
